@@ -12,7 +12,7 @@ package mq
 //@   requires 0 <= i
 //@   ensures result == specVbWidth(uint(v))
 //@   ensures 1 <= result && result <= 10
-//@   assigns elems(data)
+//@   assigns data[i:i+specVbWidth(uint(v))]
 //@   loop 0:
 //@     invariant n <= i && i - n <= 9
 //@     invariant x == specShr7(uint(v), i - n)
@@ -165,3 +165,181 @@ package mq
 //@   assigns $heap
 //@ func (*Undefined).UnmarshalBinary
 //@   assigns $heap
+
+// ---------------------------------------------------------------- rendering (C19)
+// Representation invariant of Connect: specConnectOK(p.flags, p.will).
+
+//@ func NewConnect
+//@   ensures result != nil && fresh(result) && specConnectOK(result.flags, result.will)
+
+//@ type-invariant (*Connect): specConnectOK(self.flags, self.will)                  #C19
+
+//@ func (*Connect).SetWill
+//@   inline
+//@   requires will != nil
+
+//@ func (*Connect).dump
+//@   inline
+//@   requires w != nil
+//@   requires specConnectOK(p.flags, p.will)
+
+//@ func (*Connect).fill
+//@   inline
+//@   requires specConnectOK(p.flags, p.will)
+
+//@ func (*Connect).WriteTo
+//@   inline
+//@   requires w != nil
+
+//@ func Dump
+//@   inline
+//@   requires w != nil && ival(p) != 0
+//@   requires istype(p, *Connect) ==> specConnectOK(payload(p, *Connect).flags, payload(p, *Connect).will)
+
+// ---------------------------------------------------------------- wire type encoders
+// fill writes only if the buffer is long enough and always returns the width;
+// fillProp writes identifier + value unless the value is the zero value.
+
+//@ func (bits).fill
+//@   requires 0 <= i
+//@   assigns data[i:i+1]
+//@   ensures result == 1
+//@   ensures i + 1 <= len(data) ==> data[i] == byte(v)
+
+//@ func (bits).fillOpt
+//@   requires 0 <= i
+//@   assigns data[i:i+(v == 0 ? 0 : 1)]
+//@   ensures result == (v == 0 ? 0 : 1)
+//@   ensures v != 0 && i + 1 <= len(data) ==> data[i] == byte(v)
+
+//@ func (bits).fillProp
+//@   requires 0 <= i
+//@   assigns data[i:i+(v == 0 ? 0 : 2)]
+//@   ensures result == (v == 0 ? 0 : 2)
+//@   ensures v != 0 && i + 2 <= len(data) ==> data[i] == byte(id) && data[i+1] == byte(v)
+
+//@ func (Ident).fill
+//@   requires 0 <= i
+//@   assigns data[i:i+1]
+//@   ensures result == 1
+//@   ensures i + 1 <= len(data) ==> data[i] == byte(v)
+
+//@ func (wbool).fill
+//@   requires 0 <= i
+//@   assigns data[i:i+1]
+//@   ensures result == 1
+//@   ensures i + 1 <= len(data) ==> data[i] == (v ? 1 : 0)
+
+//@ func (wbool).fillProp
+//@   requires 0 <= i
+//@   assigns data[i:i+(v ? 2 : 0)]
+//@   ensures result == (v ? 2 : 0)
+//@   ensures v && i + 2 <= len(data) ==> data[i] == byte(id) && data[i+1] == 1
+
+//@ func (wuint16).fill
+//@   requires 0 <= i
+//@   assigns data[i:i+2]
+//@   ensures result == 2
+//@   ensures i + 2 <= len(data) ==> wuint16(specU16(data[i], data[i+1])) == v
+
+//@ func (wuint16).fillProp
+//@   requires 0 <= i
+//@   assigns data[i:i+(v == 0 ? 0 : 3)]
+//@   ensures result == (v == 0 ? 0 : 3)
+//@   ensures v != 0 && i + 3 <= len(data) ==> data[i] == byte(id) && wuint16(specU16(data[i+1], data[i+2])) == v
+
+//@ func (wuint32).fill
+//@   requires 0 <= i
+//@   assigns data[i:i+4]
+//@   ensures result == 4
+//@   ensures i + 4 <= len(data) ==> wuint32(specU32(data[i], data[i+1], data[i+2], data[i+3])) == v
+
+//@ func (wuint32).fillProp
+//@   requires 0 <= i
+//@   assigns data[i:i+(v == 0 ? 0 : 5)]
+//@   ensures result == (v == 0 ? 0 : 5)
+//@   ensures v != 0 && i + 5 <= len(data) ==> data[i] == byte(id) && wuint32(specU32(data[i+1], data[i+2], data[i+3], data[i+4])) == v
+
+//@ func (vbint).fillProp
+//@   requires 0 <= i
+//@   assigns data[i:i+(v == 0 ? 0 : 1 + specVbWidth(uint(v)))]
+//@   ensures result == (v == 0 ? 0 : 1 + specVbWidth(uint(v)))
+//@   ensures v != 0 && i + 1 <= len(data) ==> data[i] == byte(id)
+
+//@ func (bindata).fill
+//@   requires 0 <= i
+//@   assigns data[i:i+2+len(v)]
+//@   ensures result == 2 + len(v)
+//@   ensures i + 2 + len(v) <= len(data) ==> wuint16(specU16(data[i], data[i+1])) == wuint16(len(v))
+//@   requires disjoint(v, data)                                                                   #C02
+//@   ensures forall k in 0..len(v): i + 2 + len(v) <= len(data) ==> data[i+2+k] == v[k]           #C02
+
+//@ func (bindata).fillProp
+//@   requires 0 <= i
+//@   assigns data[i:i+(len(v) == 0 ? 0 : 3 + len(v))]
+//@   ensures result == (len(v) == 0 ? 0 : 3 + len(v))
+//@   ensures len(v) != 0 && i + 3 + len(v) <= len(data) ==> data[i] == byte(id) && wuint16(specU16(data[i+1], data[i+2])) == wuint16(len(v))
+//@   requires disjoint(v, data)                                                                   #C02
+//@   ensures forall k in 0..len(v): len(v) != 0 && i + 3 + len(v) <= len(data) ==> data[i+3+k] == v[k]   #C02
+
+//@ func (rawdata).fill
+//@   requires 0 <= i
+//@   assigns data[i:i+len(v)]
+//@   ensures result == len(v)
+//@   requires disjoint(v, data)                                                                   #C02
+//@   ensures forall k in 0..len(v): i + len(v) <= len(data) ==> data[i+k] == v[k]                 #C02
+
+//@ func (UserProp).fill
+//@   requires 0 <= i
+//@   assigns data[i:i+4+len(v[0])+len(v[1])]
+//@   ensures result == 4 + len(v[0]) + len(v[1])
+
+//@ func (UserProp).fillProp
+//@   requires 0 <= i
+//@   assigns data[i:i+(len(v[0]) == 0 ? 0 : 5 + len(v[0]) + len(v[1]))]
+//@   ensures result == (len(v[0]) == 0 ? 0 : 5 + len(v[0]) + len(v[1]))
+
+//@ func (TopicFilter).fill
+//@   requires 0 <= i
+//@   assigns b[i:i+3+len(c.filter)]
+//@   ensures result == 3 + len(c.filter)
+
+//@ func (*UserProperties).properties
+//@   requires 0 <= i
+//@   assigns b[i:len(b)]
+//@   ensures result >= 0
+//@   loop 0:
+//@     invariant n <= i && -1 <= rangeindex
+//@     decreases len(*p) - rangeindex
+
+// ---------------------------------------------------------------- packet encoders: list loops
+
+//@ func (*Publish).properties
+//@   inline
+//@   loop 0:
+//@     invariant n <= i
+//@     decreases len(p.subscriptionIDs) - rangeindex
+
+//@ func (*Subscribe).payload
+//@   inline
+//@   loop 0:
+//@     invariant n <= i
+//@     decreases len(p.filters) - rangeindex
+
+//@ func (*SubAck).payload
+//@   inline
+//@   loop 0:
+//@     invariant n <= i
+//@     decreases len(p.reasonCodes) - rangeindex
+
+//@ func (*Unsubscribe).payload
+//@   inline
+//@   loop 0:
+//@     invariant n <= i
+//@     decreases len(p.filters) - rangeindex
+
+//@ func (*UnsubAck).payload
+//@   inline
+//@   loop 0:
+//@     invariant n <= i
+//@     decreases len(p.reasonCodes) - rangeindex
